@@ -283,6 +283,10 @@ func newWriteCmdArgsFromInputInstances(cmd *cobra.Command, inputInstances []*inp
 			if !ok {
 				return nil, errorx.NotFound("Chord %s", c.Chord)
 			}
+			// a missing degree key leaves the zero Degree, which cannot even be printed
+			if _, ok := c.Degree.Semitone(); !ok {
+				return nil, errorx.Invalid("Chord %s requires degree: instance[%d]", c.Chord, i)
+			}
 			y := op.NewChord(c.Degree, x, c.Base)
 			v.Chord = &y
 		}
